@@ -43,7 +43,7 @@ func (c *TypeSafeVariantOperations) Convert(
 	case Boolean:
 		break
 	case Object:
-		return value, nil
+		break
 	case Array:
 		break
 	}
